@@ -99,12 +99,23 @@ def raised_in_implementation(e):
     # the innermost frame that belongs to the library or to the harness decides
     # (frames of the standard library in between - a pipe that the library's
     #  worker broke, a copy the library asked for - are passed over)
-    for fr in reversed(frames):
+    callbacks = ('next_update', 'calculate_timestep', 'update_condition')
+    for i in range(len(frames) - 1, -1, -1):
+        fr = frames[i]
         name = os.path.abspath(fr.filename)
         if name.startswith(root):
             return '%s:%s' % (os.path.relpath(fr.filename, os.path.dirname(root.rstrip(os.sep))),
                               fr.name)
         if name.startswith(here):
+            # a probe process of the harness, called by the library, that cannot
+            # read the states it was handed (a key its ports declare is missing, a
+            # branch is None): the view does not have the declared shape
+            called_by_library = any(
+                os.path.abspath(f.filename).startswith(root) for f in frames[:i])
+            if fr.name in callbacks and called_by_library and isinstance(
+                    last, (KeyError, TypeError, AttributeError, IndexError)):
+                return '%s:%s (states handed to a probe process)' % (
+                    os.path.relpath(fr.filename, os.path.dirname(here.rstrip(os.sep))), fr.name)
             return None
     return None
 
